@@ -434,26 +434,31 @@ def selection_rules(repo, rep):
     # finest spacing wins
     key = base + 'finest'
     fin = None
+    fin_cmp = None
     for n in ast.walk(f.node):
-        if isinstance(n, ast.If) and isinstance(n.test, ast.Compare) and len(n.test.ops) == 1 and isinstance(n.test.ops[0], ast.Lt) \
-                and 'lat_inc' in stmt_text(n.test.left):
-            fin = n
+        if not isinstance(n, ast.If):
+            continue
+        # the comparison itself, or one arm of `not threshold or candidate < threshold` (first candidate and finer candidate in one test)
+        cands_ = [n.test] if isinstance(n.test, ast.Compare) else (list(n.test.values) if isinstance(n.test, ast.BoolOp) and isinstance(n.test.op, ast.Or) else [])
+        for c_ in cands_:
+            if isinstance(c_, ast.Compare) and len(c_.ops) == 1 and isinstance(c_.ops[0], ast.Lt) and 'lat_inc' in stmt_text(c_.left):
+                fin, fin_cmp = n, c_
     mins = [n for n in ast.walk(f.node) if isinstance(n, ast.Call) and isinstance(n.func, ast.Name) and n.func.id == 'min'
             and any(k.arg == 'key' and 'lat_inc' in stmt_text(k.value) for k in n.keywords)]
     if fin is not None:
         # a running minimum: the branch that takes the finer candidate must lower the threshold it was compared with
-        thr = fin.test.comparators[0]
+        thr = fin_cmp.comparators[0]
         lowered = isinstance(thr, ast.Name) and any(isinstance(x, ast.Assign) and isinstance(x.targets[0], ast.Name) and x.targets[0].id == thr.id
-                                                      and stmt_text(x.value) == stmt_text(fin.test.left) for x in fin.body)
+                                                      and stmt_text(x.value) == stmt_text(fin_cmp.left) for x in fin.body)
         chosen = [x for x in fin.body if isinstance(x, ast.Assign) and isinstance(x.targets[0], ast.Name) and not (isinstance(thr, ast.Name) and x.targets[0].id == thr.id)]
         if not isinstance(thr, ast.Name):
-            rep.undecided('R-GUARD', key, where(f, fin), 'the spacing comparison is not against a running threshold: %s' % stmt_text(fin.test))
+            rep.undecided('R-GUARD', key, where(f, fin), 'the spacing comparison is not against a running threshold: %s' % stmt_text(fin_cmp))
         elif lowered and chosen:
-            rep.holds('R-GUARD', key, where(f, fin), 'among overlapping sub-grids the one with the smaller lat_inc replaces the current choice and lowers the threshold: %s' % stmt_text(fin.test))
+            rep.holds('R-GUARD', key, where(f, fin), 'among overlapping sub-grids the one with the smaller lat_inc replaces the current choice and lowers the threshold: %s' % stmt_text(fin_cmp))
         elif not lowered:
             rep.violated('R-GUARD', key, where(f, fin), 'a finer sub-grid replaces the current choice but the threshold `%s` it was compared with is not lowered to its spacing: a later candidate '
                          'that is coarser than the chosen one (but finer than the first) replaces it - not the finest sub-grid wins' % thr.id,
-                         expected='%s = %s inside the branch' % (thr.id, stmt_text(fin.test.left)), actual='; '.join(stmt_text(x) for x in fin.body)[:160])
+                         expected='%s = %s inside the branch' % (thr.id, stmt_text(fin_cmp.left)), actual='; '.join(stmt_text(x) for x in fin.body)[:160])
         else:
             rep.violated('R-GUARD', key, where(f, fin), 'the finer candidate lowers the threshold but is not taken as the choice', actual='; '.join(stmt_text(x) for x in fin.body)[:160])
     elif mins:
@@ -462,6 +467,20 @@ def selection_rules(repo, rep):
         rep.undecided('R-GUARD', key, w, 'no "smaller lat_inc wins" selection recognised among the containing sub-grids')
     # arguments handed to the interpolators
     calls = [n for n in ast.walk(f.node) if isinstance(n, ast.Call) and isinstance(n.func, ast.Attribute) and n.func.attr in ('ntv2_bilinear', 'ntv2_bicubic')]
+    if not calls:
+        # the method bound once (`interp = g.ntv2_bilinear if method == 'bilinear' else g.ntv2_bicubic`) and called through that name: ONE call
+        # site serves both interpolators - it stands for both
+        refs = dict((n.attr, n) for n in ast.walk(f.node) if isinstance(n, ast.Attribute) and n.attr in ('ntv2_bilinear', 'ntv2_bicubic') and isinstance(n.ctx, ast.Load))
+        bound = [st for st in ast.walk(f.node) if isinstance(st, ast.Assign) and len(st.targets) == 1 and isinstance(st.targets[0], ast.Name)
+                 and len(set(x.attr for x in ast.walk(st.value) if isinstance(x, ast.Attribute) and x.attr in refs)) == 2]
+        if len(refs) == 2 and len(bound) == 1:
+            via = [n for n in ast.walk(f.node) if isinstance(n, ast.Call) and isinstance(n.func, ast.Name) and n.func.id == bound[0].targets[0].id]
+            if len(via) == 1:
+                for nm_ in ('ntv2_bilinear', 'ntv2_bicubic'):
+                    c_ = ast.Call(func=ast.Attribute(value=refs[nm_].value, attr=nm_, ctx=ast.Load()), args=via[0].args, keywords=via[0].keywords)
+                    ast.copy_location(c_, via[0])
+                    ast.copy_location(c_.func, via[0])
+                    calls.append(c_)
     if len(calls) != 2:
         rep.undecided('R-AFFINE', 'R-AFFINE::geodepy/ntv2reader.py::interpolate_ntv2::calls', w, 'expected one call of each interpolator')
         return
